@@ -4,42 +4,67 @@ import os
 import sys
 sys.path.insert(0, os.path.dirname(os.path.dirname(os.path.abspath(__file__))))
 from checks import common, img            # noqa: E402
-from symx import run as R                 # noqa: E402
 
-H = {
-    'capture-step': R.Harness('capture-step', img.scen_capture,
-                              img.load_sym, img.load_real),
-    'endcapture-step': R.Harness('endcapture-step', img.scen_endcapture,
-                                 img.load_sym, img.load_real),
-    'simple': R.Harness('simple', img.scen_simple, img.load_sym,
-                        img.load_real),
-    'simple-flip': R.Harness('simple-flip', img.scen_simple,
-                             img.load_sym_flip, img.load_real),
-}
-H['capture-step'].required_goals = ('captured', 'already-complete',
-                                    'chunk-straddles-start')
-H['endcapture-step'].required_goals = ('giant-chunk',)
-H['simple'].required_goals = ('accepted', 'refused', 'complete-match')
-
-SIMPLE = ('raw', 'qcow2', 'qed', 'vhd', 'vdi', 'gpt', 'luks')
+H = img.harnesses()
+PROPS = {'C01'}
 
 
 def build_jobs(tier, seed):
     J = common.Job
-    jobs = [J(H['capture-step'], {'min_length': False}),
-            J(H['capture-step'], {'min_length': True}),
-            J(H['endcapture-step'], {})]
+    P = {'props': sorted(PROPS)}
+    jobs = [J(H['capture-step'], dict(P, min_length=False)),
+            J(H['capture-step'], dict(P, min_length=True)),
+            J(H['endcapture-step'], dict(P))]
     k = 1 if tier == 'quick' else 2
-    for fmt in SIMPLE:
-        jobs.append(J(H['simple'], {'fmt': fmt, 'cuts': k}))
+    jobs += img.simple_jobs(J, H, PROPS, k, tier)
+    jobs.append(J(H['vhdx'], dict(P, cuts=1, sigs='fixed'), split_depth=16))
+    if tier == 'thorough':
+        jobs.append(J(H['vhdx'], dict(P, cuts=1, sigs='sym'),
+                      split_depth=18))
+        jobs.append(J(H['vhdx'], dict(P, cuts=2, sigs='fixed'),
+                      split_depth=18))
+        jobs.append(J(H['vhdx'], dict(P, cuts=1, sigs='fixed',
+                                      rt=['other', 'meta'],
+                                      mt=['other', 'vds']), split_depth=18))
+        jobs.append(J(H['vhdx-flip'], dict(P, cuts=1, sigs='fixed'),
+                      split_depth=16))
+        jobs.append(J(H['vhdx'], dict(P, cuts=1, sigs='fixed',
+                                      family='backward'), split_depth=12))
+        for fmt in ('qcow2', 'luks', 'vhd'):
+            jobs.append(J(H['simple-flip'], dict(P, fmt=fmt, cuts=1)))
     return jobs
 
 
 def describe(tier):
-    return {'cuts': 1 if tier == 'quick' else 2}
+    return {
+        'capture engine': 'one inductive step from an arbitrary invariant-'
+        'satisfying pre-state; offset, length, position, chunk length '
+        'unbounded integers, contents uninterpreted (covers chunk '
+        'sequences of any length)',
+        'inspector level': 'run A = %d symbolic cut(s) (empty chunks '
+        'included) with queries after every chunk, run B = one chunk; '
+        'stream bytes all symbolic; stream length symbolic up to 2048 '
+        '(4096 raw, 40960 iso, 16 MiB vhdx)' % (1 if tier == 'quick' else 2),
+        'gpt': 'bounded family of MBR tables: one (thorough: up to two) '
+        'fully symbolic entries, the others from concrete patterns',
+        'vhdx': 'metadata offset M symbolic in [256 KiB, 8 MiB], item '
+        'offset/length symbolic 32-bit, size 64-bit; table layouts: one '
+        'entry (thorough: also one padding entry before it); signatures '
+        'fixed (thorough: symbolic)',
+        'outside': 'more than 2 cuts at inspector level; VMDK see vmdk '
+        'harness; VHDX tables with more than 2 entries',
+    }
 
 
-ASSUME = ['struct model', 'logging stubbed']
+ASSUME = [
+    'struct.unpack/calcsize model (standard sizes, < and >), validated per '
+    'path by concrete replay on the real struct',
+    'logging and i18n are stubbed out (formatting is not the subject)',
+    'set iteration order of inspector/region objects is made deterministic '
+    '(thorough tier repeats under a second order)',
+    'z3 is trusted; every explored path is replayed concretely on the '
+    'normally imported module',
+]
 
 if __name__ == '__main__':
     sys.exit(common.main('C01', build_jobs, H, ASSUME, describe))
